@@ -256,6 +256,14 @@ impl<'a> World<'a> {
                     self.res.violate(&own, "C03", "C03/head-below-threshold", format!("canonical head {} is supported by {} distinct delegate(s), threshold {t} ({shape})", self.cname(&head), support(&head)));
                 } else if let Some(better) = supported.iter().find(|c| **c != head && desc_or_eq(c, &head)) {
                     self.res.violate(&own, "C03", "C03/head-not-maximal", format!("canonical head {} has a sufficiently supported descendant {} ({shape})", self.cname(&head), self.cname(better)));
+                } else {
+                    let divergent = supported.iter().any(|a| supported.iter().any(|b| a != b && !desc_or_eq(a, b) && !desc_or_eq(b, a)));
+                    let top = supported.iter().any(|c| supported.iter().all(|o| desc_or_eq(c, o)));
+                    if divergent && !top {
+                        self.res.violate(&own, "C03", "C03/head-despite-divergence", format!("canonical head {} was returned although sufficiently supported tips are mutually divergent and none descends from all of them ({shape})", self.cname(&head)));
+                    } else if divergent {
+                        self.res.hit("probe.c03.divergent_supported_tips_with_common_descendant");
+                    }
                 }
             }
             Err(radicle::storage::RepositoryError::Quorum(radicle::git::canonical::QuorumError::NoCandidates(_))) => {
